@@ -33,7 +33,8 @@ def to_model(case):
 
 
 PLAIN = [c for c in (chr(i) for i in range(32, 127)) if c not in '"\'\\']
-ESC = ['\\n', '\\t', '\\r', '\\\\', '\\0', '\\x41', '\\x7e', '\\x00', '\\xfF', '\\101', '\\7', '\\a', '\\b', '\\f', '\\v', '\\12']
+ESC = ['\\n', '\\t', '\\r', '\\\\', '\\0', '\\x41', '\\x7e', '\\x00', '\\xfF', '\\101', '\\7', '\\a', '\\b', '\\f', '\\v', '\\12',
+       '\\u20ac', '\\u0041', '\\u00e9', '\\u0100']
 
 
 def gen_string(rng, quote):
@@ -129,6 +130,10 @@ def gen_case(rng, tier):
             kind = rng.choice(['.byte', '.cstr', '.asciiz'] + (['emb'] if emb else []))
             quote = '"' if kind == 'emb' else rng.choice(['"', "'"])
             text, he = gen_string(rng, quote)
+            if kind == 'emb':
+                # a bare embedded string rejects characters beyond one byte (ValueError, fail closed); the data directives keep
+                # the low byte - only the latter is part of the modelled language
+                text = text.replace('\\u20ac', '\\u00e9').replace('\\u0100', '\\u0041')
             if kind != '.byte' and rng.random() < 0.2:
                 # the string's own last character equals the terminator
                 t8 = term & 0xFF
